@@ -120,7 +120,7 @@ class DiskProp(object):
         if judge == "C15":
             profile = rng.weighted([("medium_full", 7), ("mixed", 3)])
         elif judge == "C08":
-            profile = rng.weighted([("tool_only", 5), ("mixed", 5)])
+            profile = rng.weighted([("tool_only", 5), ("mixed", 5), ("medium_full", 2)])
         else:
             profile = rng.weighted([("tool_only", 4), ("peer_only", 2), ("mixed", 4)])
         fo = {"kind": "default"}
@@ -201,7 +201,7 @@ class DiskProp(object):
                     # placed: a file that exactly fits what is left, then one that does not
                     f["len"] = max(0, budget_gran * 2304 - GF.disk_stream_overhead(f["ftype"], f["dtype"]) - rng.choice([0, 1, 5, 6]))
                     need = granules_min(f["len"] + GF.disk_stream_overhead(f["ftype"], f["dtype"]))
-                op = "cli_append" if rng.chance(0.08) else "tool_add"
+                op = "cli_append" if rng.chance(0.25 if budget_gran <= 6 else 0.05) else "tool_add"
                 ops.append({"op": op, "file": f})
                 budget_gran -= need
                 count += 1
